@@ -663,6 +663,9 @@ func runC17(c *ev.Ctx) {
 	for _, n := range lens {
 		for fi, f := range fams {
 			reps := 2
+			if c.Thorough() {
+				reps = 12
+			}
 			if n >= 100000 {
 				reps = 1
 				if fi > 3 && n > 100000 {
